@@ -13,6 +13,7 @@ CONSTANTS
   WithErrors = FALSE
   WithIdle = FALSE
   WithSleep = TRUE
+  WithStop = FALSE
   TimeoutTypes = {}
   KeepLog = FALSE
 INVARIANT TypeOK
